@@ -437,4 +437,71 @@ theorem ring_sph_coo_inverts_sphere (debug : Bool) {n : Nat} (hn : 1 ≤ n) (hn3
   rw [hashPlane_ensures debug n Y hg.1] at hh
   exact (ring_sph_coo_inverts debug hn hn30 hRI hg h dx dy hh).1
 
+/-! ## finding F3: the north-cap seams
+
+In exact arithmetic the statement of `ring_hash_contains` fails exactly on the slanted edges of the north Collignon
+triangles, below the last ring (`y < 2 − 1/n`): a point of such an edge lies on the NW (west seam) or NE (east seam)
+edge of the outermost cell of its ring, and `deal_with_1x1_box` gives the northern edges of a diamond to the northern
+neighbour — here the *phantom* diamond in the gap between two triangles.  The index correction
+`i_in_ring −= (off+1)/2 + off·q` then underflows for facet 0 (`hashPlane_seam_north_west`: `none` in the dev profile for
+every `n ≥ 2`; the release profile wraps to `2^64 − 1` or to the last cell of the previous ring) and returns the last
+cell of facet `q − 1` of the same ring for `q ≥ 1` (a cell that does not contain the point, `seam_witness_q1`).
+On the south cap nothing of the kind happens over the reals (a diamond owns its southern edges): the closed south
+triangles are part of `GoodPoint`.  (With doubles the rounding of `x` moves seam points to either side, which is
+why the finding is observed on both caps.) -/
+
+/-- a diamond left of the first cell of facet 0 makes the index correction underflow: panic in the dev profile -/
+theorem hashTail_phantom0 {α : Type} [Num α] {n K I' : Nat} (dl dh : α) (hn : 1 ≤ n) (hK1 : 4 * n < K) (hK2 : K < 5 * n)
+    (hI : I' < (K - 4 * n + 1) / 2) : hashTail true n dl dh K I' = none := by
+  unfold hashTail
+  rw [if_neg (by omega), sub64_of_le (by omega : 1 ≤ 5 * n)]
+  simp only []
+  rw [sub64_of_le (by omega : K ≤ 5 * n - 1)]
+  simp only []
+  rw [if_neg (by omega), if_pos (by omega), sub64_of_le (by omega : 1 ≤ n)]
+  simp only []
+  rw [sub64_of_le (by omega : 5 * n - 1 - K ≤ n - 1)]
+  simp only []
+  rw [shr_and_one]
+  have e : n - 1 - (5 * n - 1 - K) = K - 4 * n := by omega
+  rw [e]
+  have : ¬ ((K - 4 * n + 1) / 2 + (K - 4 * n) * (I' / n) ≤ I') := by omega
+  simp [sub64, this]
+
+/-- **F3, exact failure set on the west seam of facet 0**: for every `n ≥ 2`, every point of the edge `x = y − 1` of the
+    first north triangle below the last ring (`1 ≤ y < 2 − 1/n`; on the sphere: `lon = 0`, `asin(2/3) ≤ lat`) makes the
+    dev profile panic -/
+theorem hashPlane_seam_north_west {n : Nat} (hn2 : 2 ≤ n) (hn30 : n < 2 ^ 30) {Y : ℝ} (h1 : 1 ≤ Y)
+    (h2 : (n : ℝ) * Y < 2 * n - 1) : hashPlane true n (Y - 1) Y = none := by
+  have hn0 : (0 : ℝ) < n := by
+    have : 0 < n := by omega
+    exact_mod_cast this
+  have hY2 : Y < 2 := by nlinarith
+  have h0 : 0 ≤ 1 / 2 * (n : ℝ) * (Y - 1) := by
+    have : 0 ≤ Y - 1 := by linarith
+    positivity
+  have ha1 := Nat.floor_le h0
+  have ha2 := Nat.lt_floor_add_one (1 / 2 * (n : ℝ) * (Y - 1))
+  generalize ⌊1 / 2 * (n : ℝ) * (Y - 1)⌋₊ = a at ha1 ha2
+  have e : 1 / 2 * (n : ℝ) * (Y + 3) - ((a + 2 * n : ℕ) : ℝ) = 1 / 2 * n * (Y - 1) - a := by push_cast; ring
+  rw [hashPlane_box true (by omega) hn30 (by linarith) (by linarith) (by linarith) (by linarith) a (a + 2 * n) ha1 ha2
+    (by push_cast; linarith) (by push_cast; linarith), e]
+  have hf0 : 0 ≤ 1 / 2 * (n : ℝ) * (Y - 1) - a := by linarith
+  have hf1 : 1 / 2 * (n : ℝ) * (Y - 1) - a < 1 := by linarith
+  have ha : 2 * a + 3 < n := by
+    have : 2 * (a : ℝ) + 3 < n := by nlinarith
+    exact_mod_cast this
+  generalize 1 / 2 * (n : ℝ) * (Y - 1) - a = f at *
+  unfold dealWith1x1Box
+  simp only [r_le, r_ge, r_one, le_refl, decide_true, if_true]
+  by_cases c2 : 1 - f ≤ f
+  · simp only [c2, decide_true, if_true]
+    exact hashTail_phantom0 _ _ (by omega) (by omega) (by omega) (by
+      have : (1 : ℕ) >>> 1 = 0 := rfl
+      rw [this]; omega)
+  · simp only [c2, decide_false, Bool.false_eq_true, if_false]
+    exact hashTail_phantom0 _ _ (by omega) (by omega) (by omega) (by
+      have : (0 : ℕ) >>> 1 = 0 := rfl
+      rw [this]; omega)
+
 end Hpx.RingReal
